@@ -266,20 +266,25 @@ func run(c Case, o *vt.Obs) *vt.Failure {
 			r := res[0].Result
 			wantOK := !exists || ver == cur.Ver
 			var got kv.Pair
-			if err := json.Unmarshal(r.Data, &got); err != nil {
+			// what the result of a SUCCESSFUL DELETE carries is nobody's business (no caller reads it, the property is silent about it:
+			// false alarm 16 in DESIGN section 6); a successful set reports the new pair, a mismatch the current one
+			needData := !(wantOK && op.Kind == "delete")
+			if err := json.Unmarshal(r.Data, &got); err != nil && needData {
 				return vt.Failf(prop+"/result-undecodable", i, "result data %q: %v", r.Data, err)
 			}
 			if wantOK {
 				if r.Value != kv.ResultCodeSuccess {
 					return vt.Failf(prop+"/cas-rejected-valid", i, "%s %q ver %d (current %d, exists %v): result code %d, want success", op.Kind, op.Key, ver, cur.Ver, exists, r.Value)
 				}
-				if got.Ver != index || got.Key != op.Key {
-					return vt.Failf(prop+"/version-stamp", i, "%s %q: result pair %+v, want version %d", op.Kind, op.Key, got, index)
+				if needData {
+					if got.Ver != index || got.Key != op.Key {
+						return vt.Failf(prop+"/version-stamp", i, "%s %q: result pair %+v, want version %d", op.Kind, op.Key, got, index)
+					}
+					if got.Ver <= maxVer {
+						return vt.Failf(prop+"/version-not-increasing", i, "new version %d not larger than an earlier one %d", got.Ver, maxVer)
+					}
+					maxVer = got.Ver
 				}
-				if got.Ver <= maxVer {
-					return vt.Failf(prop+"/version-not-increasing", i, "new version %d not larger than an earlier one %d", got.Ver, maxVer)
-				}
-				maxVer = got.Ver
 				if op.Kind == "set" {
 					model[op.Key] = mpair{op.Value, index}
 				} else {
